@@ -66,10 +66,14 @@ def cat_names(o):
     return sorted(toks)
 
 
+TITLES = {}
+
+
 def run(ctx):
     r = ctx.rng
     impl = ctx.build('asan')
     images = []
+    TITLES.clear()
     n = 10 if ctx.tier == 'quick' else 120
     for k in range(n):
         d = discs.gen_disc(r, max_files=r.choice([3, 10, None]))
@@ -80,6 +84,9 @@ def run(ctx):
                 cats[0].files[-1].dir = 0x24
         img = d.encode(discs.filler(r))
         images.append(('d%d' % k + d.extension(), img, 'valid'))
+        vols_ = d.volumes()
+        if vols_ and vols_[0][0] in (None, 'A'):
+            TITLES['d%d' % k + d.extension()] = vols_[0][3][0].title
         if r.chance(1, 2):
             b = bytearray(img)
             for _ in range(r.range(1, 6)):
@@ -113,6 +120,9 @@ def run(ctx):
             images.append(('f%d.mfm' % k, flux.hxcmfm_image(trs, 1), 'flux'))
         else:
             images.append(('f%d.hfe' % k, flux.hfe_image(trs, 1, not mfm, v3=(kind_ == 'hfe3'), opcode_rng=r.fork(), opcode_density=40), 'flux'))
+            if k < 2:
+                # the same as HFE v3 with SKIPBITS opcodes whose operand is not a bit count (ignored, with a message)
+                images.append(('s%d.hfe' % k, flux.hfe_image(trs, 1, not mfm, v3=True, opcode_rng=r.fork(), opcode_density=25, bad_skip=True), 'flux'))
         if k % 2 == 0:
             b = bytearray(images[-1][1])
             for _ in range(r.range(1, 4)):
@@ -130,6 +140,34 @@ def run(ctx):
                     argv = v + ['--file', '@' + name] + cmd
                 for rep in (0, 1):
                     cases.append(vlib.Case(name, {name: img}, argv, meta={'img': name, 'kind': kind, 'cmd': tuple(cmd), 'variant': tuple(v), 'rep': rep}))
+    # a healthy disc in drive 0 and a second image whose catalogue cannot be loaded in drive 1: commands on drive 0 must not care
+    pair_cases = []
+    good = [x for x in images if x[2] == 'valid'][:3]
+    wd = discs.gen_disc(r, variant='wdfs', geom=(80, 10), max_files=4)
+    wimg = wd.encode(lambda n: bytes(n))
+    seconds = [('t2.ssd', wimg[:768]), ('t3.ssd', wimg[:1024 + 100]), ('t4.ssd', wimg[:512])]
+    for (name, img, kind) in good:
+        for (sname, simg) in seconds:
+            for cmd in (['cat'], ['info', '*.*'], ['free'], ['show-titles', '0']):
+                for v in ([], ['--show-config'], ['--verbose']):
+                    pair_cases.append(vlib.Case(name, {name: img, sname: simg}, v + ['--file', '@' + name, '--drive-first', '--file', '@' + sname] + cmd,
+                                                meta={'img': name, 'second': sname, 'cmd': tuple(cmd), 'variant': tuple(v)}))
+    vlib.run_cases(pair_cases, impl['dfs'])
+    pbase = {}
+    for c in pair_cases:
+        if not c.meta['variant']:
+            pbase[(c.meta['img'], c.meta['second'], c.meta['cmd'])] = c
+    for c in pair_cases:
+        common.compare_model(ctx, c, 'e2e-two-images', compare_err=False)
+        ctx.oracle_cases += 1
+        ctx.case(('pair', c.meta['img'], c.meta['second'], c.meta['cmd'], c.meta['variant']), True)
+        b = pbase[(c.meta['img'], c.meta['second'], c.meta['cmd'])].impl
+        i = c.impl
+        if vlib.crashed(i['exit'], i['err']) or vlib.crashed(b['exit'], b['err']):
+            continue
+        if c.meta['variant'] and (i['out'] != b['out'] or i['exit'] != b['exit']):
+            ctx.violation('option-changes-data:' + c.meta['variant'][0], '%s changes %s of `%s` when a second, damaged image is attached' % (
+                c.meta['variant'][0], 'stdout' if i['out'] != b['out'] else 'the exit status (%d vs %d)' % (i['exit'], b['exit']), ' '.join(c.meta['cmd'])), common.replay_of(c))
     # option order: options that do not attach images commute with each other
     order_cases = []
     for (name, img, kind) in [x for x in images if x[2] == 'valid']:
@@ -171,12 +209,19 @@ def run(ctx):
         if vlib.crashed(b['exit'], b['err']):
             continue
         v = m['variant']
+        if not v and m['cmd'] == ('cat',) and i['exit'] == 0:
+            t_ = TITLES.get(m['img'], b'').split(b'\0')[0].rstrip(b' ')
+            if t_ and all(32 < ch < 127 for ch in t_) and t_ not in i['out']:
+                ctx.violation('ui-drops-title', 'cat (default UI) does not show the disc title %r' % t_, common.replay_of(c))
         if v and v[0] == '--ui':
             if m['cmd'] == ('cat',):
                 if b['exit'] != i['exit']:
                     ctx.violation('ui-changes-status', 'cat exit status changes with --ui %s (%d vs %d)' % (v[1], i['exit'], b['exit']), common.replay_of(c))
                 elif i['exit'] == 0:
                     names = cat_names
+                    t_ = TITLES.get(m['img'], b'').split(b'\0')[0].rstrip(b' ')
+                    if t_ and all(32 < ch < 127 for ch in t_) and t_ not in i['out']:
+                        ctx.violation('ui-drops-title', 'cat --ui %s does not show the disc title %r' % (v[1], t_), common.replay_of(c))
                     if names(i['out']) != names(b['out']):
                         ctx.violation('ui-changes-files', 'cat --ui %s lists a different set of files than the default UI' % v[1], common.replay_of(c))
             elif i['out'] != b['out'] or i['exit'] != b['exit']:
